@@ -214,10 +214,21 @@ func (t *strTr) assign(s *ast.AssignStmt, guard string) {
 		t.fail(s, "assignment target outside the translated subset")
 		return
 	}
+	mark := len(t.lines)
 	rhs := t.expr(s.Rhs[0])
 	if guard != "" {
 		if s.Tok != token.ASSIGN {
 			t.fail(s, "declaration inside an if")
+			return
+		}
+		pre := append([]string{}, t.lines[mark:]...)
+		t.lines = t.lines[:mark]
+		if len(pre) > 0 { // a faulting sub-expression (slice) is evaluated only when the guard holds
+			t.lines = append(t.lines, fmt.Sprintf("  let %s ← (if %s then (do", id.Name, guard))
+			for _, l := range pre {
+				t.lines = append(t.lines, "      "+strings.TrimSpace(l))
+			}
+			t.lines = append(t.lines, fmt.Sprintf("      pure %s) else pure %s)", rhs, id.Name))
 			return
 		}
 		t.lines = append(t.lines, fmt.Sprintf("  let %s := if %s then %s else %s", id.Name, guard, rhs, id.Name))
